@@ -4,6 +4,7 @@ import S2T.Props.C04_Src
 import S2T.Props.C04_Streams
 import S2T.Props.C04_StreamSites
 import S2T.Props.C04_OptText
+import S2T.Props.C04_Values
 /-!
 # C04 — every result honours the common interface, for any input
 
